@@ -496,6 +496,19 @@ func c14Node(args []string) {
 	s.Close()
 	s.Close()
 	fenceN(2)
+	// a close that was deferred to a running OnData is finished by the callback goroutine after it has told the teardown
+	// that it is leaving (asyncGoroutineWg.Done precedes its close()), so the callback may come a moment after the teardown
+	// has finished: wait for it (bounded) instead of sampling at once
+	waitUntil(5*time.Second, func() bool {
+		repMu.Lock()
+		defer repMu.Unlock()
+		for _, cb := range cbs {
+			if atomic.LoadInt32(&cb.local)+atomic.LoadInt32(&cb.remote) == 0 {
+				return false
+			}
+		}
+		return true
+	})
 	repMu.Lock()
 	for _, cb := range cbs {
 		rep.CbStreams++
